@@ -353,9 +353,9 @@ impl<Db: Database> InternalStorage<Db> {
                         time_updated: next_epoch,
                         value: Box::new(source),
                     };
-                } else {
-                    source_node.time_updated = self.current_epoch;
                 }
+                // An equal value leaves the source node untouched (in particular its
+                // `time_updated`), so that nothing that read it is re-executed.
             }
             Entry::Vacant(vacant_entry) => {
                 // A memoized function may have observed that this source was absent
